@@ -319,6 +319,37 @@ def run(ctx):
     if n8 == 0:
         raise AnalysisError("no _consume_resources() call site found in Scheduler", "Scheduler._consume_resources")
 
+    # ---- C09.9 the local executor settles a job whatever the task raised ------------------------------------------
+    # future.result() / `await task.func(..)` re-raise what the task function raised, including SystemExit (sys.exit() in a task) and other
+    # BaseExceptions.  A handler for Exception only lets those escape the completion callback -- concurrent.futures logs and drops them --
+    # so neither done_job nor reject_job is queued and run() blocks for ever.
+    r9 = ctx.rule("C09.9", "LocalExecutor's completion handlers reject the job for every BaseException the task can raise", floor=2)
+    lm = repo.mod("redun/executors/local.py")
+    n9 = 0
+    for t in ast.walk(lm.tree):
+        if not isinstance(t, ast.Try):
+            continue
+        if not any(isinstance(c, ast.Call) and last_attr(c) == "done_job" for st in t.body for c in ast.walk(st)):
+            continue
+        n9 += 1
+        wide = False
+        for h in t.handlers:
+            rejects = any(isinstance(c, ast.Call) and last_attr(c) == "reject_job" for c in ast.walk(h))
+            names = [] if h.type is None else [src(x) for x in (h.type.elts if isinstance(h.type, ast.Tuple) else [h.type])]
+            if rejects and (h.type is None or "BaseException" in names):
+                wide = True
+        q9 = lm.enclosing_qual(t)
+        r9.check(
+            wide,
+            f"{lm.rel}:{q9}:rejects-base-exception",
+            f"the handler around done_job in {q9} catches {sorted({src(h.type) for h in t.handlers if h.type is not None})} only: a task that calls sys.exit() (SystemExit) is never reported "
+            "done or failed, its job stays RUNNING and Scheduler.run() never returns",
+            lm.rel,
+            t.lineno,
+        )
+    if n9 < 2:
+        raise AnalysisError(f"only {n9} done_job try-blocks found in LocalExecutor", "LocalExecutor._submit")
+
 
 def _compress(seq: str) -> str:
     out = []
